@@ -786,8 +786,12 @@ class SysSim(Engine):
             if any(f.startswith(("open_fail", "write_fail", "makedirs_fail")) for f in fired):
                 self._cnt(st, "failed-write-surfaces")
                 if out[0] == "ret":
-                    raise Violation("failed-write-surfaces", f"{kind} returned normally although an injected {sorted(fired)} hit one of its writes",
-                                    cls="failed-write-surfaces", **tags)
+                    # returning normally is acceptable only if the export is nevertheless complete (an implementation may retry)
+                    try:
+                        self._judge_export(st, op, result, target, tags)
+                    except Violation as v:
+                        raise Violation("failed-write-surfaces", f"{kind} returned normally although an injected {sorted(fired)} hit one of its "
+                                                                 f"writes, and the export is incomplete: {v.detail}", cls="failed-write-surfaces", **tags)
             # E4 recovery: repeat without fault into the same location
             fired2, out2, result2, target2 = self._export(st, op, None, target=target)
             self._cnt(st, "export-recovers")
